@@ -461,6 +461,10 @@ func (p *cpuPair) single(r *rand.Rand, op byte, mode string, w *json.Encoder) {
 		}
 		break
 	}
+	if op == 0xFC && r.Intn(2) == 0 && a.PC > 0x400 {
+		a.K = 0
+		a.S = 0x100 + r.Intn(0x100)
+	}
 	p.clean()
 	base := uint32(a.K) << 16
 	ins := [4]byte{op, byte(r.Intn(256)), byte(r.Intn(256)), byte(r.Intn(256))}
@@ -474,6 +478,12 @@ func (p *cpuPair) single(r *rand.Rand, op byte, mode string, w *json.Encoder) {
 	if mode == "dec" && r.Intn(4) != 0 { // valid BCD immediate
 		ins[1] = byte(r.Intn(10) | r.Intn(10)<<4)
 		ins[2] = byte(r.Intn(10) | r.Intn(10)<<4)
+	}
+	if op == 0xFC && a.K == 0 && r.Intn(2) == 0 {
+		// JSR (a,X) whose pointer lies in the bytes the instruction itself pushes (an order-of-access corner: the two
+		// interpreters must at least agree with each other)
+		ptr := (a.S - r.Intn(2) - a.X) & 0xFFFF
+		ins[1], ins[2] = byte(ptr), byte(ptr>>8)
 	}
 	for j := 0; j < 4; j++ {
 		p.poke(base|uint32((a.PC+j)&0xFFFF), ins[j])
@@ -641,8 +651,87 @@ func (p *cpuPair) replayFile(in string, enc *json.Encoder, r *rand.Rand) (int, e
 	return cnt, sc.Err()
 }
 
+// replay of short programs exported by TLC from CpuProgMC.tla: {pre, prog:[[bytes]...], steps}; the program is laid
+// down contiguously from the start PC (straight-line alphabet) and executed step by step on both interpreters
+func (p *cpuPair) progReplayFile(in string, enc *json.Encoder, r *rand.Rand) (int, error) {
+	f, err := os.Open(in)
+	if err != nil {
+		return 0, err
+	}
+	defer f.Close()
+	sc := bufio.NewScanner(f)
+	sc.Buffer(make([]byte, 1<<20), 1<<24)
+	if p.seed != 5 {
+		p.reseed(5) // CpuProgMC.tla's Fill uses seed 5
+	}
+	cnt := 0
+	for sc.Scan() {
+		var x struct {
+			Pre   Arch    `json:"pre"`
+			Prog  [][]int `json:"prog"`
+			Steps int     `json:"steps"`
+		}
+		if err := json.Unmarshal(sc.Bytes(), &x); err != nil {
+			return cnt, err
+		}
+		p.clean()
+		pc := x.Pre.PC
+		for _, ins := range x.Prog {
+			for _, b := range ins {
+				p.poke(uint32(x.Pre.K)<<16|uint32(pc&0xFFFF), byte(b))
+				pc++
+			}
+		}
+		all := uint64(r.Intn(1 << 20))
+		loadPri(p.pri, x.Pre, r, all)
+		loadAlt(p.alt, x.Pre, r, all)
+		for i := 0; i < x.Steps; i++ {
+			ev := stepEv{Tag: "progmc", Seed: int(p.seed), Ov: p.ov(), Pre: projPri(p.pri)}
+			if traceMode && projAlt(p.alt) == ev.Pre {
+				ev.Line = p.traceLines()
+			}
+			ev.Pri = p.stepPri()
+			ev.Alt = p.stepAlt()
+			enc.Encode(&ev)
+			cnt++
+			if ev.Pri.Panic || ev.Alt.Panic {
+				break
+			}
+			if ev.Pri.Post != ev.Alt.Post || fmt.Sprint(ev.Pri.Wr) != fmt.Sprint(ev.Alt.Wr) {
+				for ad := range p.dirtyA {
+					p.memA.data[ad] = cpuFill(p.seed, uint32(ad))
+				}
+				p.dirtyA = map[int]bool{}
+				for ad := range p.dirtyP {
+					p.memA.data[ad] = p.memP.data[ad]
+					p.dirtyA[ad] = true
+				}
+				loadAlt(p.alt, ev.Pri.Post, r, p.pri.AllCycles)
+			}
+		}
+	}
+	return cnt, sc.Err()
+}
+
 func init() {
 	register("cpu", func(args []string) error {
+		if len(args) >= 3 && args[0] == "progreplay" { // vh cpu progreplay <in> <out>
+			f, err := os.Create(args[2])
+			if err != nil {
+				return err
+			}
+			defer f.Close()
+			bw := bufio.NewWriterSize(f, 1<<20)
+			defer bw.Flush()
+			p := newPair()
+			n, err := p.progReplayFile(args[1], json.NewEncoder(bw), rand.New(rand.NewSource(seedEnv())))
+			if err != nil {
+				return err
+			}
+			bw.Flush()
+			fmt.Printf("{\"events\": %d}\n", n)
+			return nil
+		}
 		if len(args) >= 3 && (args[0] == "replay" || args[0] == "trace-replay") { // vh cpu replay <in> <out>
 			traceMode = args[0] == "trace-replay"
 			f, err := os.Create(args[2])
